@@ -12,7 +12,8 @@ from fractions import Fraction
 from harness.lib.core import Corr, Prop, blit, llit, qlit
 
 GEN_LABELS = ["CAR", "BICYCLE", "PEDESTRIAN", "MOTORBIKE", "UNKNOWN", "FP", "ANIMAL"]
-TLR_LABELS = ["GREEN", "RED", "YELLOW", "UNKNOWN", "RED_LEFT", "FP", "TRAFFIC_LIGHT"]
+# (two of the ordinary members have long values sharing their first 16 characters: labels are compared whole, not by a prefix)
+TLR_LABELS = ["GREEN", "RED", "YELLOW_STRAIGHT_LEFT", "UNKNOWN", "YELLOW_STRAIGHT_RIGHT", "FP", "TRAFFIC_LIGHT"]
 FP_LABEL = 5
 EXTRA_LABEL = 6             # ANIMAL / TRAFFIC_LIGHT: members the target lists never hold
 RARE_LABELS = (0, 3, 4, 5)  # contains UNKNOWN of either family (index 4 / 3) and the FP label
@@ -20,8 +21,8 @@ RARE_LABELS = (0, 3, 4, 5)  # contains UNKNOWN of either family (index 4 / 3) an
 GEN_NAMES = {"CAR": ["car", "vehicle.car", "CAR"], "BICYCLE": ["bicycle", "vehicle.bicycle"], "PEDESTRIAN": ["pedestrian", "stroller",
              "pedestrian.adult"], "MOTORBIKE": ["motorbike", "vehicle.motorcycle"], "UNKNOWN": ["unknown", "movable_object.debris"],
              "FP": ["false_positive", "FP"], "ANIMAL": ["animal"]}
-TLR_NAMES = {"GREEN": ["green", "crosswalk_green"], "RED": ["red", "crosswalk_red"], "YELLOW": ["yellow", "amber"],
-             "UNKNOWN": ["unknown", "crosswalk_unknown"], "RED_LEFT": ["red_left", "red-left"], "FP": ["false_positive"],
+TLR_NAMES = {"GREEN": ["green", "crosswalk_green"], "RED": ["red", "crosswalk_red"], "YELLOW_STRAIGHT_LEFT": ["yellow_straight_left", "amber"],
+             "UNKNOWN": ["unknown", "crosswalk_unknown"], "YELLOW_STRAIGHT_RIGHT": ["yellow_straight_right", "yellow-straight-right"], "FP": ["false_positive"],
              "TRAFFIC_LIGHT": ["traffic_light"]}
 ATTRS = [None, [], ["occluded"], ["vehicle.parked", "red"], ["car"]]
 POLICIES = [None, "DEFAULT", "ALLOW_UNKNOWN", "ALLOW_ANY"]
